@@ -78,7 +78,7 @@ ISHIFTS = {'lshift': operator.ilshift, 'rshift': operator.irshift}
 BITSTRING_KINDS = ['Bits', 'BitArray', 'ConstBitStream', 'BitStream']
 PROMOTABLE = ['str', 'hexstr', 'bytes', 'bytearray', 'memoryview', 'list', 'tuple', 'gen', 'truthy', 'truthy-iter', 'bitarray'] + util.SUBCLASS_KINDS + ['failing-iter']
 BYTE_KINDS = ('bytes', 'bytearray', 'memoryview', 'bytes-sub', 'bytearray-sub', 'memoryview-ro', 'memoryview-strided', 'memoryview-reversed')
-REFLECTABLE = {'str', 'hexstr', 'bytes', 'bytearray', 'memoryview', 'list', 'tuple', 'gen', 'truthy', 'truthy-iter'} | (set(util.SUBCLASS_KINDS) - {'frozenbitarray'}) | {'failing-iter'}
+REFLECTABLE = {'str', 'hexstr', 'bytes', 'bytearray', 'memoryview', 'list', 'tuple', 'gen', 'truthy', 'truthy-iter'} | (set(util.SUBCLASS_KINDS) - {'frozenbitarray', 'frozenbitarray-little', 'bitarray-little'}) | {'failing-iter'}
 ROUTES = ['bin', 'bin', 'slice', 'bytes', 'auto', 'file', 'file-limited', 'frozenbitarray', 'frozenbitarray-kw', 'bitarray-kw',
           'memoryview-ro'] + ['made:' + r for r in ('from-BitArray', 'from-BitStream', 'copy', 'pack', 'bin-assigned', 'uintN-assigned', 'appended-to-empty',
                                                       'cleared-then-iadd', 'shifted-out-then-or', 'add-halves')]
@@ -172,7 +172,7 @@ def _build_receiver(c, bits=None):
         if route == 'bitarray-kw':
             s = cls(bitarray=bitarray.bitarray(a, endian='little' if len(a) % 2 else 'big'))
         else:
-            fb = bitarray.frozenbitarray(a)
+            fb = bitarray.frozenbitarray(a, endian='little' if len(a) % 3 == 1 else 'big')
             s = cls(fb) if route == 'frozenbitarray' else cls(bitarray=fb)
     elif route == 'memoryview-ro' and len(a) % 8 == 0:
         s = cls(memoryview(bytearray(int(a, 2).to_bytes(len(a) // 8, 'big'))).toreadonly())
